@@ -68,7 +68,7 @@ class WriterRef:
         op = tok[0]
         if self.closed:
             return "dontcare"     # using a writer after a successful close() is outside the property
-        if op == "c":
+        if op in ("c", "X"):
             if self.d == "cpp":
                 if self.pos == n:
                     self.closed = True
@@ -134,9 +134,9 @@ class ReaderRef:
         op = tok[0]
         if self.closed:
             return ("dontcare", None)
-        if op == "c" and self.pos == n and not (self.d == "py" and self.open_iter):
+        if op in ("c", "X") and self.pos == n and not (self.d == "py" and self.open_iter):
             self.closed = True
-        if op == "c":
+        if op in ("c", "X"):
             if self.d == "py" and self.open_iter:
                 return ("throw", None)
             if self.pos == n:
@@ -216,7 +216,7 @@ class ReaderRef:
 
 
 def alphabet(pat, role, dialect):
-    toks = ["c"]
+    toks = ["c"] + (["X"] if dialect == "py" else [])     # X: leaving a `with` block (documented usage of the Python readers and writers)
     for i, ch in enumerate(pat):
         if role == "w":
             if dialect == "cpp":
@@ -254,7 +254,7 @@ def sequences(pat, role, dialect, k, r, n_random, max_len=None):
                     if res != "ok":
                         ok = False
                         break
-                if ok and a != "c" and sum(1 for t in pre if t[1:].split(":")[0] == a[1:].split(":")[0]) < 3:
+                if ok and a not in ("c", "X") and sum(1 for t in pre if t[1:].split(":")[0] == a[1:].split(":")[0]) < 3:
                     nxt.append(pre + (a,))
         frontier = nxt[:400]
     for pre in valid_prefixes:
@@ -266,6 +266,8 @@ def sequences(pat, role, dialect, k, r, n_random, max_len=None):
     for pre in short:
         for a in alpha:
             seqs.add(pre + ("c", a))
+            if dialect == "py":
+                seqs.add(pre + ("X", a))
         if role == "w" and dialect == "py":
             for i in range(len(pat)):
                 for a in alpha:
@@ -283,7 +285,7 @@ def expected(pat, role, dialect, k, seq):
         if isinstance(res, str):
             res = (res, None)
         out.append(res)
-        if res[0] == "throw" and (t == "c" or t[0] == "x"):
+        if res[0] == "throw" and (t in ("c", "X") or t[0] == "x"):
             continue      # a rejected close() and a raising implementation leave the object where it was: the sequence goes on
         if res[0] != "ok":
             break
@@ -397,7 +399,7 @@ def run(ctx):
         return
     ks_small = [0, 1, 2, 5]
 
-    def batch(name, pt, role, dialect, k, seqs):
+    def batch(name, pt, role, dialect, k, seqs, real=None):
         """runs all sequences; returns list of outcome lists"""
         if dialect == "cpp":
             lines = "".join("%s %s %s %s\n" % (name, role, ",".join(map(str, k)) if k else "-", " ".join(s)) for s in seqs)
@@ -407,7 +409,7 @@ def run(ctx):
             outs = [blk.split("\n")[:-1] if blk else [] for blk in pr.stdout.split("#\n")[1:]]
             outs = [[x for x in o if x] for o in outs]
             return outs, None
-        res = worker.cmd({"op": "statemachine", "proto": name, "role": role, "seqs": [list(s) for s in seqs], "k": [ki for ki in k]})
+        res = worker.cmd({"op": "statemachine", "proto": name, "role": role, "seqs": [list(s) for s in seqs], "k": [ki for ki in k], "real": real})
         if not res.get("ok"):
             return None, res.get("error")
         return res["results"], None
@@ -421,10 +423,15 @@ def run(ctx):
                 for kv in kvals:
                     k = [kv if ch == "s" else None for ch in pt]
                     kk = [x if x is not None else 0 for x in k] if dialect == "cpp" else k
-                    jobs.append((name, pt, role, dialect, kk, kv, isbig))
+                    jobs.append((name, pt, role, dialect, kk, kv, isbig, None))
+                    if dialect == "py" and not isbig and kv in (0, 2):
+                        # the same sequences on the generated binary and NDJSON readers / writers over in-memory streams
+                        jobs.append((name, pt, role, dialect, kk, kv, isbig, "binary"))
+                        jobs.append((name, pt, role, dialect, kk, kv, isbig, "ndjson"))
 
     def one(job):
-        name, pt, role, dialect, k, kv, isbig = job
+        name, pt, role, dialect, k, kv, isbig, real = job
+        label = dialect if real is None else "%s-%s" % (dialect, real)
         r = rng("C07", name, role, dialect, kv)
         kref = [x if x is not None else 0 for x in k]
         if isbig:
@@ -441,15 +448,17 @@ def run(ctx):
                     seqs.append(tuple(full[:cut] + [wrong]))
         else:
             seqs = sequences(pt, role, dialect, kref, r, 15 if quick else 80)
-        outs, err = batch(name, pt, role, dialect, k, seqs)
+        if real:
+            seqs = [q for q in seqs if not any(t[0] == "x" for t in q)]     # a real writer has no implementation that can be made to raise
+        outs, err = batch(name, pt, role, dialect, k, seqs, real)
         if outs is None:
-            ctx.violation("driver-failed:%s" % dialect, "%s %s %s: %s" % (name, role, dialect, err), {"case_dir": root})
+            ctx.violation("driver-failed:%s" % label, "%s %s %s: %s" % (name, role, label, err), {"case_dir": root})
             return
         for seq, got in zip(seqs, outs):
             ctx.ev()
-            ctx.case((dialect, role, name, kv, seq))
+            ctx.case((label, role, name, kv, seq))
             exp = expected(pt, role, dialect, kref, seq)
-            ctx.count("%s.%s" % (dialect, "writer" if role == "w" else "reader"))
+            ctx.count("%s.%s" % (label, "writer" if role == "w" else "reader"))
             for j, (e, d) in enumerate(exp):
                 g = got[j] if j < len(got) else "missing"
                 if e == "dontcare":
@@ -457,8 +466,8 @@ def run(ctx):
                 gk = g.split(":")[0]
                 if e == "throw":
                     if gk != "throw":
-                        ctx.violation("accepted-out-of-order:%s:%s:%s" % (dialect, "writer" if role == "w" else "reader", "big" if isbig else action_class(pt, seq, j)),
-                                      "%s %s %s (k=%s): call #%d `%s` of sequence %s must raise, but returned %s" % (dialect, name, "writer" if role == "w" else "reader", kv, j + 1, seq[j], list(seq), g),
+                        ctx.violation("accepted-out-of-order:%s:%s:%s" % (label, "writer" if role == "w" else "reader", "big" if isbig else action_class(pt, seq, j)),
+                                      "%s %s %s (k=%s): call #%d `%s` of sequence %s must raise, but returned %s" % (label, name, "writer" if role == "w" else "reader", kv, j + 1, seq[j], list(seq), g),
                                       {"protocol": name, "pattern": pt, "sequence": list(seq), "got": got, "expected": exp})
                         break
                     if j + 1 < len(exp):
@@ -466,12 +475,12 @@ def run(ctx):
                         continue
                     break
                 if gk != "ok":
-                    ctx.violation("rejected-in-order:%s:%s:%s" % (dialect, "writer" if role == "w" else "reader", "big" if isbig else action_class(pt, seq, j)),
-                                  "%s %s %s (k=%s): call #%d `%s` of the in-order sequence %s raised (%s)" % (dialect, name, "writer" if role == "w" else "reader", kv, j + 1, seq[j], list(seq), g),
+                    ctx.violation("rejected-in-order:%s:%s:%s" % (label, "writer" if role == "w" else "reader", "big" if isbig else action_class(pt, seq, j)),
+                                  "%s %s %s (k=%s): call #%d `%s` of the in-order sequence %s raised (%s)" % (label, name, "writer" if role == "w" else "reader", kv, j + 1, seq[j], list(seq), g),
                                   {"protocol": name, "pattern": pt, "sequence": list(seq), "got": got, "expected": exp})
                     break
                 if d is not None and ":" in g and g.split(":", 1)[1] != d:
-                    ctx.violation("wrong-result:%s:reader" % dialect, "%s %s reader (k=%s): call #%d `%s` of %s returned %s, expected %s" % (dialect, name, kv, j + 1, seq[j], list(seq), g, d),
+                    ctx.violation("wrong-result:%s:reader" % label, "%s %s reader (k=%s): call #%d `%s` of %s returned %s, expected %s" % (label, name, kv, j + 1, seq[j], list(seq), g, d),
                                   {"protocol": name, "pattern": pt, "sequence": list(seq), "got": got})
                     break
 
@@ -536,7 +545,7 @@ def run(ctx):
 
 def action_class(pt, seq, j):
     t = seq[j]
-    if t == "c":
+    if t in ("c", "X"):
         return "close"
     return "op-" + t[0]
 
